@@ -102,10 +102,12 @@ def verify_function(world, qualname, timeout_ms=20000, max_paths=3000, only_path
                 env.vars[p] = v
                 values[p] = v
                 run.inputs[p] = v
+            run.ghost_values = {}
             for g, k in c.ghost.items():
                 v = run.fresh(k, 'g_' + g)
                 values[g] = v
                 run.inputs[g] = v
+                run.ghost_values[g] = v
             fv2 = FuncV(node, mi, cls, qualname, cenv if len(chain) > 1 else None, kind=fv.kind)
             if len(chain) > 1:
                 cenv.vars[node.name] = fv2
